@@ -429,7 +429,7 @@ def show(e):
     return str(e)
 
 
-def judge_conversion(rec, route, dt, form, src, dst_label, res, idxs, exps_all, K, ratio, state, invals=None, const=None):
+def judge_conversion(rec, route, dt, form, src, dst_label, res, idxs, exps_all, K, ratio, state, invals=None, const=None, nonlinear=False):
     """apply kind / dtype / value rules to one result; returns True when everything held"""
     fam = FAMILY[route]
     cl = cls_of(dt)
@@ -473,6 +473,12 @@ def judge_conversion(rec, route, dt, form, src, dst_label, res, idxs, exps_all, 
         elif isinstance(vin, int) and abs(vin) >= fi.max + X.ulp(fi.max, fi) / 2:
             kind = "int-exceeds-float-max"           # the integer itself rounds to inf in the float of its item size
         state["value_bad"].add(route)
+        if nonlinear and din.itemsize < 8 and kind in ("inf", "truncated", "value", "nan"):
+            # a nonlinear formula chain (x*x, x**4, products with 1e-27 / 1e-23 constants) evaluated in the data's own narrow
+            # float width: one mechanism whatever the narrow dtype, keyed by what the narrow arithmetic did to the result
+            rec.violation(f"C17:{fam}:narrow-width-nonlinear-chain:{kind}", f"{route} ({form}) of {dt} data {src}->{dst_label}: element {idxs[i]} came back {g!r} "
+                          f"({gdt}); exact conversion gives {show(ex)}", case)
+            return False
         rec.violation(f"C17:{fam}:{kind}:{cl}", f"{route} ({form}) of {dt} data {src}->{dst_label}: element {idxs[i]} came back {g!r} "
                       f"({gdt}); exact conversion gives {show(ex)}", case)
         return False
@@ -642,7 +648,8 @@ def run_conversions(unyt, rec, kind, dt, tier, r):
                     # map indices of fvals back into use_vals
                     gidx = [index_of(use_vals, fvals[i]) for i in idxs]
                     const = None if not eqinfo else {"recip": None, "c_over": C_LIGHT, "mc2": C_LIGHT * C_LIGHT}.get(eqinfo[1])
-                    ok = judge_conversion(rec, route, dt, form, src, label, res, gidx, exps_all, K, ratio, state, use_vals, const)
+                    ok = judge_conversion(rec, route, dt, form, src, label, res, gidx, exps_all, K, ratio, state, use_vals, const,
+                                          nonlinear=bool(eqinfo and eqinfo[1] in NONLINEAR))
                     sub = "copy" if route in copy_routes else "inplace"
                     rec.count(f"evals:{kind}:{sub}")
                     if ok:
